@@ -416,6 +416,24 @@ class Assembler:
                 if e:
                     edits.extend(e)
                     # continue scanning inside (other rules still apply to sub-tokens that are not edited)
+            # ---- R23: a left shift of one integer literal by another (`1u32 << 31`, `1 << 10`) is written as its value, as
+            # rustc's constant evaluation does; only where neither operand can belong to a tighter-binding neighbour
+            if t.kind == NUM and v.is_p(k + 1, "<<") and k + 2 < b and v.t[k + 2].kind == NUM and k > a:
+                m1 = re.match(r"^(0x[0-9a-fA-F_]+|0b[01_]+|0o[0-7_]+|[0-9][0-9_]*)((?:[iu](?:8|16|32|64|128|size))?)$", t.text)
+                m2 = re.match(r"^(0x[0-9a-fA-F_]+|0b[01_]+|0o[0-7_]+|[0-9][0-9_]*)((?:[iu](?:8|16|32|64|128|size))?)$", v.text(k + 2))
+                before_ok = v.text(k - 1) in ("(", ",", "=", "<", ">", "<=", ">=", "==", "!=", "&&", "||", "return", "{", ";", "=>", "..", "..=", "|", "^")
+                after_ok = v.text(k + 3) in (")", ",", ";", "{", "}", "]", "<", ">", "<=", ">=", "==", "!=", "&&", "||", "|", "^", "&", "=>", "..", "..=")
+                if m1 and m2 and before_ok and after_ok:
+                    lhs = int(m1.group(1).replace("_", ""), 0)
+                    rhs = int(m2.group(1).replace("_", ""), 0)
+                    suf = m1.group(2)
+                    bits = INT_TYPES.get(suf, 128)
+                    val = lhs << rhs if rhs < 128 else None
+                    top = (1 << (bits - 1)) if suf.startswith("i") else (1 << bits)
+                    if val is not None and rhs < bits and val < top:
+                        edits.append(Edit(k, k + 3, f"{val}{suf}", "R23", f"constant shift {v.render(k, k + 3)} folded to {val}"))
+                        k += 3
+                        continue
             # ---- function-pointer selection fused with its single call (R17)
             if t.kind == IDENT and t.text == "let" and v.is_id(k + 1) and v.is_p(k + 2, "=") and v.is_id(k + 3, "match"):
                 e = self.rule_r17(v, k, b)
